@@ -512,7 +512,12 @@ func (g *Gen) inType() (*TExpr, string) {
 		}
 	}
 	for _, t := range g.all("input") {
-		cs = append(cs, cand{t.Name, ""})
+		// (an input-object default: the literal that gives the required fields)
+		lit := ""
+		if l, ok := g.inputLiteralDepth(t, 2); ok {
+			lit = l
+		}
+		cs = append(cs, cand{t.Name, lit})
 	}
 	for _, t := range g.all("scalar") {
 		cs = append(cs, cand{t.Name, ""})
@@ -764,6 +769,17 @@ func (g *Gen) Valid() Fragment {
 				f := FieldSpec{Name: g.fresh("k"), Type: at, Default: def}
 				s.Fields = append(s.Fields, f)
 				ti.Fields = append(ti.Fields, FInfo{Name: f.Name, Type: at.String()})
+			}
+			// chains of input types: a field of an input type that exists already,
+			// half of the time with an input-object default (nested defaults)
+			if others := g.all("input"); len(others) > 0 && g.T.Bool(1, 2) {
+				o := others[g.T.Draw(len(others))]
+				f := FieldSpec{Name: g.fresh("k"), Type: &TExpr{Name: o.Name}}
+				if lit, ok := g.inputLiteralDepth(o, 2); ok && g.T.Bool(1, 2) {
+					f.Default = lit
+				}
+				s.Fields = append(s.Fields, f)
+				ti.Fields = append(ti.Fields, FInfo{Name: f.Name, Type: o.Name})
 			}
 			g.pending = append(g.pending, ti)
 			g.maybeDirs(s)
